@@ -229,7 +229,8 @@ class PKESessionKeyV3(PKESessionKey):
         if self.pkalg == PubKeyAlgorithm.RSAEncryptOrSign:
             # pad up ct with null bytes if necessary
             ct = self.ct.me_mod_n.to_mpibytes()[2:]
-            ct = b'\x00' * ((pk.keymaterial.__privkey__().key_size // 8) - len(ct)) + ct
+            # (to the length of the modulus in octets: a modulus need not be a multiple of 8 bits long)
+            ct = b'\x00' * (((pk.keymaterial.__privkey__().key_size + 7) // 8) - len(ct)) + ct
 
             decrypter = pk.keymaterial.__privkey__().decrypt
             decargs = (ct, padding.PKCS1v15(),)
